@@ -161,7 +161,10 @@ def c18_r4(ctx):
     ctx.ob(f, len(locked) == 2 and all(locked.values()) and len(set(locked.values())) == 1,
            "the RAM reader is taken and the fresh RAM index installed inside the same `with self.lock` block", detail=str(locked))
     cl = prog.method("writing.BufferedWriter", "close", inherited=False)
-    ctx.ob(cl, "self.commit(restart=False)" in norm.stmt_text(cl.node), "close() commits (without reopening)")
+    from .common import bound_arg
+    commits = [c for c in find_calls(cl, "commit") if norm.canon(norm.receiver(c)) == "self"]
+    ok = any(isinstance(bound_arg(prog, cl, c, "restart"), ast.Constant) and bound_arg(prog, cl, c, "restart").value is False for c in commits)
+    ctx.ob(cl, ok, "close() commits (without reopening)")
     ad = prog.method("writing.BufferedWriter", "add_document", inherited=False)
     ctx.ob(ad, "self.bufferedcount += 1" in norm.stmt_text(ad.node), "add_document counts what it buffers")
     # MpWriter._commit
